@@ -159,6 +159,8 @@ Definition get_full_model_x (key : model_key) (x : list N) (Tmin Tmax Tmin_seg T
 
 (* utilities/base_model.py: get_smooth_coeffs(hdd_bp, pct_hdd_k, cdd_bp, pct_cdd_k, min_pct_k=0.01)
    pct_match = 1, hence hdd_w = cdd_w = 0 (the lambertw branch is dead code).
+   Includes the guard of /repo 742a3de4: for ordered inputs the shifted cooling balance point is never below the
+   shifted heating one (over the reals they meet when the fractions add up to one; in binary64 they could cross by an ulp).
    Returns (hdd_bp', hdd_k, cdd_bp', cdd_k). *)
 Definition min_pct_k : N := one / n_hundred.      (* 0.01, correctly rounded in binary64 *)
 
@@ -176,8 +178,11 @@ Definition get_smooth_coeffs (hdd_bp pct_hdd_k cdd_bp pct_cdd_k : N) : N * N * N
     let hdd_k := pct_hdd_k * (cdd_bp - hdd_bp) / (one - hdd_w) in
     let cdd_k := pct_cdd_k * (cdd_bp - hdd_bp) / (one + cdd_w) in
     (* move breakpoints based on k *)
+    let ordered := hdd_bp <=? cdd_bp in
     let hdd_bp := hdd_bp + hdd_k * (one - hdd_w) in
     let cdd_bp := cdd_bp - cdd_k * (one + cdd_w) in
+    (* when the fractions add up to one the shifted breakpoints meet; rounding must not cross them *)
+    let cdd_bp := if ordered && (cdd_bp <? hdd_bp) then hdd_bp else cdd_bp in
     (hdd_bp, hdd_k, cdd_bp, cdd_k).
 
 (* ---------------------------------------------------------------- full_model, one temperature *)
